@@ -178,6 +178,9 @@ func (eng *Engine) resolveType(t TypeExpr, from *types.Package) types.Type {
 		if t.Name == "mathint" {
 			return eng.mathint
 		}
+		if t.Name == "struct{}" {
+			return types.NewStruct(nil, nil)
+		}
 		if obj := types.Universe.Lookup(t.Name); obj != nil {
 			if tn, ok := obj.(*types.TypeName); ok {
 				return tn.Type()
